@@ -16,7 +16,7 @@ def one(name):
         ap = subprocess.run("cd %s && patch -p1 < %s" % (scratch, os.path.join(out, "patch.diff")), shell=True, capture_output=True, text=True)
         if ap.returncode != 0:
             return name, "patch does not apply", []
-        env = dict(os.environ, PYREX_REPO=scratch)
+        env = dict(os.environ, PYREX_REPO=scratch, PYVC_EVIDENCE_DIR=os.path.join(scratch, '_evidence'))
         c = subprocess.run(["/verif/check", pid], env=env, capture_output=True, text=True)
         lines = [l for l in (c.stdout + c.stderr).splitlines() if l.startswith(("VIOLATION", "SUMMARY", "UNDECIDED", "ENGINE", "KNOWN"))]
         meta.setdefault("confirmed_by_builder", {})["check_exit"] = c.returncode
